@@ -28,6 +28,7 @@ class Net:
         self.epipe_on_closed_peer = False
         self.frag = None            # max bytes handed out per recv (None = as much as asked)
         self.log = None             # optional callable(event dict)
+        self.hook = None            # fault layer for client-side sockets: before_send(sock, data) -> data | None, before_recv(sock)
 
     def create_socket(self, bind=None, connect=None, reuseaddr=False, keepalive=True, timeout=-1, noinherit=False,
                       ipv6=False, nodelay=True, sslContext=None):
@@ -129,6 +130,7 @@ class FakeSock:
         self.sent = 0             # bytes written by this end
         self.consumed = 0         # bytes handed out by recv
         self.frag = None
+        self.reset_after_drain = False   # reset once the buffered bytes have been read
 
     def getsockname(self):
         return self.laddr
@@ -157,6 +159,10 @@ class FakeSock:
         if self.reset:
             raise ConnectionResetError(errno.ECONNRESET, "connection reset")
         data = bytes(data)
+        if self.client and self.net.hook is not None:
+            data = self.net.hook.before_send(self, data)
+            if data is None:
+                return None
         if self.peer.closed or self.peer.reset:
             if self.net.epipe_on_closed_peer:
                 raise BrokenPipeError(errno.EPIPE, "broken pipe")
@@ -171,7 +177,7 @@ class FakeSock:
 
     # ---- reading
     def _ready(self, want):
-        return len(self.inbuf) >= want or self.eof or self.reset or self.closed
+        return len(self.inbuf) >= want or self.eof or self.reset or self.closed or self.reset_after_drain
 
     def recv(self, size, flags=0):
         if self.closed:
@@ -179,6 +185,8 @@ class FakeSock:
         want = size if (flags & getattr(socket, "MSG_WAITALL", 0)) else 1
         if size <= 0:
             return b""
+        if self.client and self.net.hook is not None:
+            self.net.hook.before_recv(self)
         if not self._ready(want):
             sc = S.CUR
             if sc is None or not sc.controlled():
@@ -188,7 +196,8 @@ class FakeSock:
                 raise socket.timeout("timed out")
         if self.closed:
             raise OSError(errno.EBADF, "bad file descriptor")
-        if self.reset:
+        if self.reset or (self.reset_after_drain and not self.inbuf):
+            self.reset = True
             raise ConnectionResetError(errno.ECONNRESET, "connection reset by peer")
         n = size
         frag = self.frag or self.net.frag
@@ -202,6 +211,8 @@ class FakeSock:
     def shutdown(self, how):
         if self.closed:
             raise OSError(errno.EBADF, "bad file descriptor")
+        if self.reset:
+            raise OSError(errno.ENOTCONN, "transport endpoint is not connected")     # as a real socket after a RST
         if self.peer is not None:
             self.peer.eof = True
 
